@@ -3,7 +3,7 @@ package main
 import (
 	"fmt"
 
-	"golang.org/x/tools/go/ssa"
+	"gclverify/xt/ssa"
 )
 
 func init() {
